@@ -147,16 +147,20 @@ Example C13_example_production :
   /\ length (session [5] prod_comp) = 15.
 Proof. exact (conj prod_wf (conj prod_guarded prod_size)). Qed.
 
-(* ---- BEGIN write deadline on the unrepaired tree.  After the fix: of F5 (guard on
-        relay.opt.SendTimeout > 0) delete this block - it stops compiling, which is the signal -
-        and add "theories/Properties/C13Fixed.vo" to coq_targets in props/C13.py.  The two witnesses
-        are proved here by computation on the generated guard. ---- *)
-(** The write/ping deadline is applied only if PingDuration > 0: with ping disabled a positive
-    send timeout does not guard the write (F5). *)
-Theorem C13_write_deadline_refuted : exists ping st, (st > 0)%Z /\ g_write_deadline_guard ping st = false.
-Proof. exists 0%Z, 100%Z. split; [lia | vm_compute; reflexivity]. Qed.
-Print Assumptions C13_write_deadline_refuted.
+(** The write and ping deadlines are applied whenever a send timeout is configured, whatever the
+    other relay options are (the guards are regenerated from relay.go on every run; before the
+    repair of F5 they tested PingDuration > 0 and this theorem was refuted by ping = 0). *)
+Lemma g_write_deadline_guard_spec ping st : g_write_deadline_guard ping st = (st >? 0)%Z.
+Proof. reflexivity. Qed.
 
-Theorem C13_ping_deadline_refuted : exists ping st, (st > 0)%Z /\ g_ping_deadline_guard ping st = false.
-Proof. exists 0%Z, 100%Z. split; [lia | vm_compute; reflexivity]. Qed.
-(* ---- END write deadline on the unrepaired tree ---- *)
+Lemma g_ping_deadline_guard_spec ping st : g_ping_deadline_guard ping st = (st >? 0)%Z.
+Proof. reflexivity. Qed.
+
+Theorem C13_write_deadline_always : forall ping st, (st > 0)%Z -> g_write_deadline_guard ping st = true.
+Proof. intros ping st H. rewrite g_write_deadline_guard_spec. apply Z.gtb_lt. lia. Qed.
+Print Assumptions C13_write_deadline_always.
+
+Theorem C13_ping_deadline_always : forall ping st, (st > 0)%Z -> g_ping_deadline_guard ping st = true.
+Proof. intros ping st H. rewrite g_ping_deadline_guard_spec. apply Z.gtb_lt. lia. Qed.
+Print Assumptions C13_ping_deadline_always.
+
